@@ -30,11 +30,17 @@ func (ec emptyCursor) Next(ctx context.Context) {}
 func (ec emptyCursor) Get(ctx context.Context) (model.LogEvent, tag.Line, error) {
 	return model.LogEvent{}, tag.EmptyLine, io.EOF
 }
-func (ec emptyCursor) Release()                              {}
-func (ec emptyCursor) SetBackward(bool)                      {}
-func (ec emptyCursor) CurrentPos() records.IteratorPos       { return "" }
-func (ec emptyCursor) Id() uint64                            { return 0 }
-func (ec emptyCursor) Offset(ctx context.Context, offs int)  {}
-func (ec emptyCursor) ApplyState(state State) error          { return nil }
-func (ec emptyCursor) State(context.Context) State           { return State{} }
-func (ec emptyCursor) WaitNewData(ctx context.Context) error { return nil }
+func (ec emptyCursor) Release()                             {}
+func (ec emptyCursor) SetBackward(bool)                     {}
+func (ec emptyCursor) CurrentPos() records.IteratorPos      { return "" }
+func (ec emptyCursor) Id() uint64                           { return 0 }
+func (ec emptyCursor) Offset(ctx context.Context, offs int) {}
+func (ec emptyCursor) ApplyState(state State) error         { return nil }
+func (ec emptyCursor) State(context.Context) State          { return State{} }
+
+// WaitNewData has no partition to listen to: it blocks until the context ends (the caller's wait
+// timeout) and reports that, so a waiting query over no partitions answers empty after its timeout.
+func (ec emptyCursor) WaitNewData(ctx context.Context) error {
+	<-ctx.Done()
+	return ctx.Err()
+}
